@@ -6,15 +6,15 @@ TB = ("Trusted: TLC; the virtual kernel harness/simk.c (virtual clock, blocking 
       "descriptors, fault injection); gcc; the trampolines' observation of callbacks. Bounded: programs of the "
       "generator profile, not all programs.")
 CHECKS = {
- "C01": ("TLC trace validation of spec/MonCore.tla rules C01:* on every execution of seeded and spec-generated API programs (4 poll methods), objects poisoned at unregister", "4/C01"),
- "C02": ("TLC trace validation of MonCore rules C02:sleep-on-ready / due-not-dispatched / not-reported against poll(2)-measured ground truth at every wait", "4/C02"),
- "C03": ("TLC trace validation of MonCore rules C03:* (registered, current handler pointer, cookie, condition at preceding poll, once per iteration)", "4/C03"),
- "C04": ("TLC trace validation of MonCore rules C04:early/twice/oversleep under a virtual clock and simulated timerfd", "4/C04"),
- "C05": ("TLC model checking of spec/IvTimerHeap.tla (radix-tree heap, SplitBits 1/2, all paths) + lock-step validation of the real store against it (populations crossing 128) + TLA+ order/exactly-once monitor on histories up to 17000 timers (crossing 16384) + MonCore rule C05:order on loop executions", "4/C05"),
- "C06": ("TLC trace validation of MonCore rules C06:* (exactly once, unregistered at entry, no blocking wait with a task pending, once per poll interval)", "4/C06"),
- "C07": ("TLC trace validation of MonCore rules C07:* (return iff quit or nothing registered, no poll without objects, no nesting, spin) incl. failing registrations", "4/C07"),
- "C15": ("all MonCore rules under the method x fault-plan matrix (EINTR at the k-th wait, ENOSYS/EPERM fall-backs from the 1st/k-th call)", "4/C15"),
- "C08": ("TLC model checking of spec/IvEvent.tla (no lost wake-up, no over-delivery, liveness) + schedule enumeration of real threads under the baton scheduler, traces validated by TLC against MonCore rules C08:*", "4/C08"),
+ "C01": ("TLC model checking of spec/IvCore.tla composed with the MonCore monitor + TLC trace validation of MonCore / MonSig / MonInotify rules about released objects (C01:*) on every execution of seeded, hand-written and spec-generated API programs (4 poll methods; descriptors, timers, tasks, events, raw events, signal and wait interests, inotify), objects poisoned at unregister", "4/C01"),
+ "C02": ("TLC model checking of spec/IvCore.tla (epoll and poll back ends) composed with MonCore + TLC trace validation of MonCore rules C02:sleep-on-ready / due-not-dispatched / not-reported against poll(2)-measured ground truth at every wait", "4/C02"),
+ "C03": ("TLC model checking of spec/IvCore.tla composed with MonCore + TLC trace validation of MonCore rules C03:* (registered, current handler pointer, cookie, condition at preceding poll, once per iteration)", "4/C03"),
+ "C04": ("TLC model checking of spec/IvCore.tla (timers, kernel-timer automaton) composed with MonCore + TLC trace validation of MonCore rules C04:early/twice/oversleep/starved under a virtual clock and simulated timerfd + lock-step of the real timer store against spec/IvTimerHeap.tla", "4/C04"),
+ "C05": ("TLC model checking of spec/IvTimerHeap.tla (radix-tree heap, SplitBits 1/2, all paths) + lock-step validation of the real store against it (populations crossing 128) + TLA+ order/exactly-once monitor on histories up to 17000 timers (crossing 16384) + MonCore rules C05:order and (for the clause on when other timers fire) C04:oversleep/early/starved on loop executions", "4/C05"),
+ "C06": ("TLC model checking of spec/IvCore.tla (task epochs) composed with MonCore + TLC trace validation of MonCore rules C06:* (exactly once, unregistered at entry, no blocking wait with a task pending, once per poll interval)", "4/C06"),
+ "C07": ("TLC model checking of spec/IvCore.tla and spec/IvEventReg.tla (failing registrations) + TLC trace validation of MonCore rules C07:* (return iff quit or nothing registered, no poll without objects, no nesting, spin) and of the blocking-while-due rules of C02/C04/C06, incl. spec-generated programs with failing registrations in threaded programs", "4/C07"),
+ "C15": ("all MonCore rules under the method x fault-plan matrix (EINTR at the k-th wait and signals interrupting waits, ENOSYS/EPERM fall-backs from the 1st/k-th call), raw-event bursts with eventfd absent/old, iv_fd_pump read/write fallback under MonPump; IvCore model checked with interrupted waits", "4/C15"),
+ "C08": ("TLC model checking of spec/IvEvent.tla (no lost wake-up, no over-delivery, liveness) and spec/IvEventReg.tla (registration life cycle; its generated programs replayed on the real code) + schedule enumeration of real threads under the baton scheduler, traces validated by TLC against MonCore rules C08:*", "4/C08"),
  "C09": ("TLC model checking of spec/IvRaw.tla (eventfd / pipe modes) + schedule enumeration and bursts on the real code in eventfd2 / eventfd / pipe mode, traces validated against MonCore rules C09:*", "4/C09"),
  "C10": ("TLC model checking of spec/IvSignal.tla composed with the MonSig monitor + simulated signal deliveries on the real code, traces validated by TLC against MonSig rules C10:*", "4/C10"),
  "C11": ("TLC model checking of spec/IvWait.tla composed with MonSig + simulated child processes (pid reuse, strangers, exit-before-fork-returns) on the real code, traces validated against MonSig rules C11:*", "4/C11"),
